@@ -216,6 +216,10 @@ def spline_dofs():
                 failures.append(dict(desc, clause='element-touches-p+1-consecutive-dofs-modulo-the-period', returned=got, expected=want))
             if any(d < 0 or d >= nd for ds in got for d in ds):
                 failures.append(dict(desc, clause='dofs-in-range', returned=got, ndofs=nd))
+            st, sp = [int(x) for x in b._start_dofs[0]], [int(x) for x in b._stop_dofs[0]]
+            if not (len(st) == len(sp) == n >= 1 and all(a <= c for a, c in zip(st, st[1:])) and all(a <= c for a, c in zip(sp, sp[1:])) and st[0] >= 0 and sp[-1] >= nd >= 1
+                    and all(c - a == p + 1 for a, c in zip(st, sp)) and tuple(b._dofs_shape) == (nd,) and tuple(b._transforms_shape) == (n,)):
+                failures.append(dict(desc, clause='tables-satisfy-the-invariant-assumed-for-StructuredBasis', start_dofs=st, stop_dofs=sp, ndofs=nd))
             sup = [[int(e) for e in b.get_support(d)] for d in range(nd)]
             inv = [[e for e in range(n) if d in got[e]] for d in range(nd)]
             if sup != inv:
